@@ -225,6 +225,17 @@ func propC11(r *Run) {
 					c.Kind = "update"
 					c.PW = fmt.Sprintf("pw-%02d", pwn) // every written password is unique
 					pwn++
+					if total+3 <= 34 && r.Choose("same-login-around-the-change", 4) == 0 {
+						// somebody tries the new password a moment too early and again right after the
+						// change, through the same frontend: the second answer is the store's, not a
+						// remembered one
+						via := vias[r.Choose("via", len(vias))]
+						plan = append(plan, &Call{Kind: "authenticate", Via: via, Agent: a.idx, User: u, PW: c.PW}, c,
+							&Call{Kind: "authenticate", Via: via, Agent: a.idx, User: u, PW: c.PW})
+						total += 3
+						r.Count("probe:same-login-before-and-after-a-change")
+						continue
+					}
 				case 8:
 					c.Kind = "add"
 					c.User = []string{"newbie", u}[r.Choose("add-name", 2)]
